@@ -16,10 +16,8 @@ func init() {
 		Run: func(p *Prog, c *Ctx) {
 			fn := p.MustFn("(*vuego.template).layout")
 			var render ssa.Instruction
-			for _, site := range callsIn(fn) {
-				if calleeName(site.Common()) == "(*vuego.template).renderWithoutLayout" {
-					render = site
-				}
+			for _, site := range p.callsToRole(fn, "(*vuego.template).renderWithoutLayout") {
+				render = site
 			}
 			if render == nil {
 				undecided("layout: no renderWithoutLayout call")
@@ -139,17 +137,29 @@ func init() {
 				c.check(isCopy, "layout: destination receives a buffer copy", p.instrPos(u), "final copy of the last buffer", calleeName(u.Common())+" renders into the caller's writer directly")
 				retNext := pathAvoiding(u, func(in ssa.Instruction) bool {
 					s, ok := in.(ssa.CallInstruction)
-					return ok && (calleeName(s.Common()) == "(*vuego.template).renderWithoutLayout" || calleeName(s.Common()) == "(*vuego.template).Load")
+					if !ok {
+						return false
+					}
+					for _, rs := range p.callsToRole(fn, "(*vuego.template).renderWithoutLayout") {
+						if rs == s {
+							return true
+						}
+					}
+					return calleeName(s.Common()) == "(*vuego.template).Load"
 				}, nil)
 				c.check(retNext == nil, "layout: nothing is rendered after the final copy", p.instrPos(u), "the copy is terminal", "another link is loaded/rendered after output was written")
 			}
-			for _, site := range callsIn(fn) {
-				if calleeName(site.Common()) != "(*vuego.template).renderWithoutLayout" {
-					continue
-				}
+			for _, site := range p.callsToRole(fn, "(*vuego.template).renderWithoutLayout") {
 				fresh := false
 				h := loopHeaderOf(site.Block())
-				for _, o := range p.origins(site.Common().Args[2], OriginOpts{}) {
+				// the writer argument: the one of io.Writer type
+				wIdx := 2
+				for i, a := range site.Common().Args {
+					if isWriterType(a.Type()) {
+						wIdx = i
+					}
+				}
+				for _, o := range p.origins(site.Common().Args[wIdx], OriginOpts{}) {
 					if al, ok := o.(*ssa.Alloc); ok && h != nil && loopBlocks(h)[al.Block()] {
 						fresh = true
 					}
@@ -223,16 +233,40 @@ func init() {
 			c.check(def != "" && def == probe, "layout: default constant agrees with the probe", p.pos(layout.Pos()), "both are "+probe, fmt.Sprintf("Render probes %q but the chain loop defaults to %q", probe, def))
 			if guardBlock != nil {
 				first, noLayout := false, false
-				for _, g := range guardsOf(guardBlock) {
-					cnd, flip := stripNot(g.If.Cond)
-					want := g.Branch != flip
-					if b, ok := cnd.(*ssa.BinOp); ok && ((b.Op == token.EQL && want) || (b.Op == token.NEQ && !want)) {
+				classify := func(cnd ssa.Value, want bool) {
+					if b := eqOnEdge(cnd, want); b != nil {
+						// layout == ""  /  len(layout) == 0
 						if s, ok := constString(b.Y); ok && s == "" {
 							noLayout = true
+						}
+						if k, ok := constInt(b.Y); ok && k == 0 && isCallNamed(b.X, "builtin.len") != nil {
+							noLayout = true
+						}
+						// the first round: the loop counter still has its initial value
+						if ph, ok := b.X.(*ssa.Phi); ok {
+							if k, ok := constInt(b.Y); ok {
+								for _, e := range ph.Edges {
+									if k0, ok := constInt(e); ok && k0 == k {
+										first = true
+									}
+								}
+							}
 						}
 					}
 					if isBoolCellOrPhi(cnd) && want {
 						first = true
+					}
+				}
+				for _, g := range guardsOf(guardBlock) {
+					cnd, flip := stripNot(g.If.Cond)
+					classify(cnd, g.Branch != flip)
+				}
+				if !(first && noLayout) {
+					// `if layout == "" && !first { final }; …; if layout == "" { default }`: the facts follow from the paths
+					if facts, ok := pathFacts(guardBlock); ok {
+						for _, f := range facts {
+							classify(f.Cond, f.Want)
+						}
 					}
 				}
 				c.check(first && noLayout, "layout: default only for the first template without a layout", p.instrPos(guardBlock.Instrs[len(guardBlock.Instrs)-1]), "guarded by first-template ∧ no layout key", "the default layout is applied outside 'first template and no layout named'")
@@ -290,6 +324,75 @@ func init() {
 						}
 					}
 				}
+				if failed == 0 {
+					// the probes may be a loop over a list of candidates: the fallback follows a loop that Stats every
+					// candidate, leaves only by returning the probed path, and runs at least once (an unconditional
+					// append fills the list before the loop)
+					for x := r.Block(); x != nil && failed == 0; x = x.Idom() {
+						isHeader := false
+						for _, pr := range x.Preds {
+							if x.Dominates(pr) {
+								isHeader = true
+							}
+						}
+						if !isHeader || x == r.Block() {
+							continue
+						}
+						loop := loopBlocks(x)
+						hasStat, exitsOK := false, true
+						for b := range loop {
+							for _, in := range b.Instrs {
+								if site, ok := in.(ssa.CallInstruction); ok && calleeName(site.Common()) == "(*vuego.Loader).Stat" {
+									hasStat = true
+								}
+							}
+							if b == x {
+								continue
+							}
+							for _, sc := range b.Succs {
+								if !loop[sc] {
+									if _, isRet := sc.Instrs[len(sc.Instrs)-1].(*ssa.Return); !isRet {
+										exitsOK = false
+									}
+								}
+							}
+						}
+						nonEmpty := false
+						eachInstr(fn, func(in ssa.Instruction) {
+							if cl, ok := in.(*ssa.Call); ok && calleeName(&cl.Call) == "builtin.append" && cl.Block().Dominates(x) && !loop[cl.Block()] {
+								// the appended-to list is what the loop walks
+								for _, b := range []*ssa.BasicBlock{x} {
+									for _, hi := range b.Instrs {
+										for _, op := range hi.Operands(nil) {
+											if op == nil || *op == nil {
+												continue
+											}
+											for _, o := range p.origins(*op, OriginOpts{}) {
+												if o == ssa.Value(cl) {
+													nonEmpty = true
+												}
+											}
+										}
+									}
+								}
+								if pre := x.Idom(); pre != nil {
+									for _, hi := range pre.Instrs {
+										if ln := isCallNamed(valueOf(hi), "builtin.len"); ln != nil {
+											for _, o := range p.origins(ln.Call.Args[0], OriginOpts{}) {
+												if o == ssa.Value(cl) {
+													nonEmpty = true
+												}
+											}
+										}
+									}
+								}
+							}
+						})
+						if hasStat && exitsOK && nonEmpty {
+							failed = 1
+						}
+					}
+				}
 				c.check(failed >= 1, fmt.Sprintf("resolveLayoutPath: fallback return#%d after a failed relative Stat", i+1), p.instrPos(r), fmt.Sprintf("%d failed relative probe(s) on every path to the fallback", failed), "the layouts/ fallback can be returned without having probed the path relative to the current file")
 			}
 			// call site in the loop
@@ -329,10 +432,8 @@ func init() {
 		Run: func(p *Prog, c *Ctx) {
 			fn := p.MustFn("(*vuego.template).layout")
 			var render ssa.Instruction
-			for _, site := range callsIn(fn) {
-				if calleeName(site.Common()) == "(*vuego.template).renderWithoutLayout" {
-					render = site
-				}
+			for _, site := range p.callsToRole(fn, "(*vuego.template).renderWithoutLayout") {
+				render = site
 			}
 			if render == nil {
 				undecided("layout: no render call")
@@ -500,7 +601,13 @@ func init() {
 		Doc: "children never write to the parent: New/new/Load build the child's stack from Copy() (or a fresh stack), never from the parent's own stack field, and store nothing into the receiver; Fill installs a map made in the call as the root scope, never the caller's map",
 		Run: func(p *Prog, c *Ctx) {
 			for _, name := range []string{"(*vuego.template).new", "(*vuego.template).Load", "(*vuego.template).New"} {
-				fn := p.MustFn(name)
+				fn := p.Fn(name)
+				if fn == nil {
+					if hosts, _ := p.hostsOf(name); len(hosts) > 0 {
+						continue // inlined by hand into New/Load, which are checked themselves
+					}
+					undecided("anchor function %s not found in the module (renamed or removed): the rule cannot be decided", name)
+				}
 				recv := fn.Params[0]
 				wrote := ""
 				eachInstr(fn, func(in ssa.Instruction) {
@@ -529,22 +636,36 @@ func init() {
 				})
 				c.check(wrote == "", name+": receiver untouched", p.pos(fn.Pos()), "no write to the parent template", wrote+": the parent (and every sibling created from it) sees the child's data")
 			}
-			nw := p.MustFn("(*vuego.template).new")
-			okStack := false
-			eachInstr(nw, func(in ssa.Instruction) {
-				st, ok := in.(*ssa.Store)
-				if !ok {
-					return
-				}
-				if fv := fieldVar(st.Addr); fv != nil && fieldIs(fv, "stack") {
-					okStack = true
-					for _, o := range p.origins(st.Val, OriginOpts{}) {
-						if isCallNamed(o, "(*vuego.Stack).Copy", "vuego.NewStack", "vuego.NewStackWithData") == nil {
-							okStack = false
+			nws, _ := p.hostsOf("(*vuego.template).new")
+			if len(nws) == 0 {
+				undecided("anchor function (*vuego.template).new not found, nor its former callers")
+			}
+			nw := nws[0]
+			okStack := true
+			for _, host := range nws {
+				found := false
+				eachInstr(host, func(in ssa.Instruction) {
+					st, ok := in.(*ssa.Store)
+					if !ok {
+						return
+					}
+					if fv := fieldVar(st.Addr); fv != nil && fieldIs(fv, "stack") {
+						// a store into the stack field of a template built here (not of the receiver: checked above)
+						if fa, ok := st.Addr.(*ssa.FieldAddr); ok && len(host.Params) > 0 && fa.X == ssa.Value(host.Params[0]) {
+							return
+						}
+						found = true
+						for _, o := range p.origins(st.Val, OriginOpts{}) {
+							if isCallNamed(o, "(*vuego.Stack).Copy", "vuego.NewStack", "vuego.NewStackWithData") == nil {
+								okStack = false
+							}
 						}
 					}
+				})
+				if !found {
+					okStack = false
 				}
-			})
+			}
 			c.check(okStack, "new: child stack is a copy", p.pos(nw.Pos()), "stack: t.stack.Copy()", "the child template shares the parent's stack object: Assign on the child changes what the parent and siblings see")
 			fill := p.MustFn("(*vuego.template).Fill")
 			for _, site := range callsIn(fill) {
@@ -596,13 +717,24 @@ func init() {
 					c.check(used, fmt.Sprintf("%s: %s front-matter#%d", shortName(fn), nm, n), p.instrPos(site), "front-matter result is consumed", "the file's front-matter is loaded and dropped: the rendered file's own front-matter no longer takes precedence")
 				}
 			}
-			rw := p.MustFn("(*vuego.template).renderWithoutLayout")
-			calls := false
-			for _, site := range callsIn(rw) {
-				if calleeName(site.Common()) == "(*vuego.Vue).Render" {
-					calls = true
+			// (when the small method was inlined into its callers and deleted, every former caller must render this way)
+			rws, _ := p.hostsOf("(*vuego.template).renderWithoutLayout")
+			if len(rws) == 0 {
+				undecided("renderWithoutLayout: neither the method nor its former callers exist")
+			}
+			calls := true
+			for _, rw := range rws {
+				has := false
+				for _, site := range callsIn(rw) {
+					if calleeName(site.Common()) == "(*vuego.Vue).Render" {
+						has = true
+					}
+				}
+				if !has {
+					calls = false
 				}
 			}
+			rw := rws[0]
 			c.check(calls, "renderWithoutLayout: renders through Vue.Render", p.pos(rw.Pos()), "front-matter is re-applied over the stack's data", "a loaded template is rendered without going through Vue.Render, which re-applies the file's front-matter: a value assigned after Load then beats front-matter")
 		},
 	})
@@ -766,6 +898,14 @@ func (p *Prog) loadAssignsFrontMatter() bool {
 			assigns = append(assigns, site)
 		}
 	}
+	if newCall == nil {
+		// the constructor was inlined: the fresh template is the struct allocated here
+		eachInstr(ld, func(in ssa.Instruction) {
+			if al, ok := in.(*ssa.Alloc); ok && al.Heap && strings.HasSuffix(typeShort(al.Type()), "vuego.template") {
+				newCall = al
+			}
+		})
+	}
 	okLoad := false
 	for _, assign := range assigns {
 		if newCall == nil || !dominates(newCall, assign) {
@@ -788,4 +928,10 @@ func (p *Prog) loadAssignsFrontMatter() bool {
 		}
 	}
 	return okLoad
+}
+
+// valueOf returns the instruction as a value, or nil.
+func valueOf(in ssa.Instruction) ssa.Value {
+	v, _ := in.(ssa.Value)
+	return v
 }
